@@ -233,4 +233,46 @@ pub fn run(ctx: &mut Ctx) {
         let idx = ctx.add_case(coq, desc, nontrivial);
         for (class, what) in oracle_fail { ctx.fail(idx, &class, what); }
     }
+    // the record count of a deserializer over WINDOWS of arrays: every kind of top-level view (every leaf type and every
+    // container kind) x windows at every offset 0..8: len() is the window length, get(len - 1) is Some, get(len) is None, a
+    // second column of the same length is accepted and one of another length refused
+    {
+        use crate::arrgen::{self, Inject, Val};
+        let mut rng = ctx.rng.fork();
+        let mut kinds: Vec<Field> = crate::c18::all_leaves().into_iter().map(|dt| Field { name: "c".into(), data_type: dt, nullable: true, metadata: Default::default() }).collect();
+        for parent in 1..8usize { if let Some((f, _)) = crate::c18::under_parent(parent, &DataType::Int32, true) { kinds.push(f); } }
+        let nrows = 12usize;
+        let ints: Vec<i64> = (0..nrows as i64 + 2).collect();
+        for field in &kinds {
+            let mut none = Inject { countdown: -1, what: None };
+            let rows: Vec<Val> = (0..nrows).map(|_| Val::Struct(vec![("c".to_string(), arrgen::gen_val(&mut rng, field, &mut none))], 0)).collect();
+            let Out::Ok(arrays) = guarded(|| serde_arrow::to_marrow(std::slice::from_ref(field), &rows).map_err(|e| e.to_string())) else { ctx.count("len_sweep:rows_rejected"); continue };
+            let whole = arrays[0].as_view();
+            for off in 0..9usize {
+                if !ctx.thorough && off % 2 == 0 && off != 0 { continue; }
+                let l = nrows - off;
+                let window = crate::viewgen::slice_view(&whole, off, l);
+                let other = Field { name: "i".into(), data_type: DataType::Int64, nullable: false, metadata: Default::default() };
+                let r = guarded(|| -> Result<Vec<String>, String> {
+                    let mut bad = vec![];
+                    let de = Deserializer::from_marrow(std::slice::from_ref(field), std::slice::from_ref(&window)).map_err(|e| e.to_string())?;
+                    if de.len() != l { bad.push(format!("len() = {} for a window of {} rows", de.len(), l)); }
+                    if l > 0 && de.get(l - 1).is_none() { bad.push(format!("get({}) is None in a window of {} rows", l - 1, l)); }
+                    if de.get(l).is_some() { bad.push(format!("get({}) is Some in a window of {} rows", l, l)); }
+                    let same = View::Int64(PrimitiveView { validity: None, values: &ints[..l] });
+                    if let Err(e) = Deserializer::from_marrow(&[field.clone(), other.clone()], &[window.clone(), same]) { bad.push(format!("a second column of the same length ({}) is refused: {}", l, e)); }
+                    let longer = View::Int64(PrimitiveView { validity: None, values: &ints[..l + 1] });
+                    if Deserializer::from_marrow(&[field.clone(), other.clone()], &[window.clone(), longer]).is_ok() { bad.push(format!("a second column of length {} next to a window of {} rows is accepted", l + 1, l)); }
+                    Ok(bad)
+                });
+                ctx.count("len_sweep:window");
+                ctx.add_eval(&format!("lensweep{:?}{}", field.data_type, off), true);
+                match r {
+                    Out::Ok(bad) => for b in bad { ctx.fail(0, "record_count_wrong", format!("{:?}, window at offset {}: {}", field.data_type, off, b)); },
+                    Out::Err(e) => ctx.fail(0, "record_count_wrong", format!("{:?}, window at offset {}: construction refused: {}", field.data_type, off, e)),
+                    Out::Panic(p) => ctx.fail(0, "panic", format!("{:?}, window at offset {}: {}", field.data_type, off, p)),
+                }
+            }
+        }
+    }
 }
